@@ -84,4 +84,12 @@ META.update({
         technique="property-based testing (rapid): generated cancellation points owned by the harness (inside the function / listeners) + randomised spin-race trials, judged by history invariants over a linearised event log",
     ),
 })
+META.update({
+    "C06": dict(
+        text="Property testing of the bulkhead under generated concurrent scenarios: executions in three roles (parked holders, bursts, waiters against a full bulkhead), with the bulkhead bare or inside retry / an always-firing timeout / a real hedge / a fallback (or outside a retry), standalone permits taken by the harness, and a generated order of actions (open a gate, cancel an execution while it waits for or holds a permit, take/release standalone permits). Invariants: the in-flight meter inside the function plus standalone permits never exceeds maxConcurrency at any function entry; refused executions never entered the function; ErrFull never with a 1 h max wait; after everything finished exactly maxConcurrency permits can be acquired (a permit that is late comes back within the polling period, a lost one never does); a double release shows as a goroutine blocked in ReleasePermit. Sampling of schedules, not proof.",
+        design_ref="DESIGN.md section 6, C06",
+        note="Schedules are produced by harness gates plus the Go scheduler; the meter is conservative (never over-estimates permits in use).",
+        technique="property-based testing (rapid): generated concurrent scenarios with harness-owned gates and cancellation points, history invariants (in-flight meter, permit conservation probe)",
+    ),
+})
 NOT_APPLICABLE = [dict(property_id=p, reason="check not built yet in this session (work in progress; DESIGN.md section 6 describes the planned property-based check)") for p in ALL if p not in META]
